@@ -7,6 +7,8 @@ def _c20_case(c):
         return {"op": "P", "input": unhex(p[1])}
     if p[0] == "R":
         return {"op": "R", "registry": unhex(p[1]), "repository": unhex(p[2]), "input": unhex(p[3])}
+    if p[0] == "V":
+        return {"op": "V", "kind": p[1], "input": unhex(p[2])}
     if p[0] == "U":
         return {"op": "U", "kind": p[1], "plain": "true" if p[2] == "1" else "false",
                 "registry": unhex(p[3]), "repository": unhex(p[4]), "reference": unhex(p[5])}
@@ -17,21 +19,35 @@ def _c20_case(c):
 
 
 
+LINK = {
+    "name": "C20link",
+    "proof_files": [],
+    "model_files": ["Generated/GC20.v", "Model/Reference.v", "Model/RefOps.v"],
+    "extract": "XC20.v",
+    "ml_main": "c20_main.ml",
+    "harness": "c20link",
+    "case_to_replay": _c20_case,
+}
+
 CONFIG = {
     "properties_file": "Properties/C20.v",
-    "proof_files": ["Base/Prelude.v", "Base/Regex.v", "Proofs/Reference.v", "Proofs/RefOps.v"],
+    "proof_files": ["Base/Prelude.v", "Base/Regex.v", "Proofs/Reference.v", "Proofs/RefOps.v", "Proofs/RefURL.v", "Proofs/RefGrammar.v"],
     "model_files": ["Generated/GC20.v", "Model/Reference.v", "Model/RefOps.v"],
     "extract": "XC20.v",
     "ml_main": "c20_main.ml",
     "harness": "c20",
     "case_to_replay": _c20_case,
+    "parts": [LINK],
     "assumptions": [
-        "registry validity is url.ParseRequestURI (net/url): a parameter of the theorems; the correspondence judges only authorities a conservative recogniser decides",
-        "go-digest v1.0.0 Digest.Validate (pinned dependency) is hand-modelled (sha256/384/512, lower-case hex of the exact length)",
+        "registry validity is url.ParseRequestURI (net/url): a parameter valid_registry of the theorems. The only fact about it the URL theorems use is reg_clean: an accepted registry is non-empty and contains none of controls/space # % / ? @ \\ DEL; the harness checks this on every reference the implementation accepts (oracle registry-charset). Acceptance itself is judged only on authorities a conservative recogniser decides (others, e.g. bracketed hosts, are toolchain-relative: go1.23 and go1.26 differ there)",
+        "go-digest v1.0.0 Digest.Validate (pinned; the harness refuses to run against another version) is hand-modelled: algorithm in the fixed table sha256/384/512 AND linked into the binary (crypto.Hash.Available), lower-case hex of the exact length. The link set is the parameter avail of model and theorems (all theorems hold for every avail); it is exercised in two builds: all three hashes linked (cmd/c20) and crypto/sha256 only (cmd/c20link). A binary that links no hash at all accepts no digest reference (theorems still hold; not run)",
         "Go regexp semantics for the ASCII-only, fully anchored expressions used here = Base/Regex.v Lang (proved equal to the derivative matcher)",
+        "generic URL syntax (RFC 3986 section 3) = Model url_split; compared with net/url's parse of every URL built in the run",
+        "Repository clauses quantify over bases that are themselves valid (a literal &Repository{Reference: ...} is not validated by the library): invalid bases, bases with an empty port and a base Reference field are generated and compared with the model for ParseReference but not judged by the oracle / not driven through net/http",
+        "out of scope: URLs built from descriptors (Fetch/Delete/Exists use desc.Digest unvalidated), catalog/base URL, tag-list paging parameters, mount from a caller-supplied repository name that is not a valid repository, manifests with a subject (client-side referrers indexing sends further requests)",
     ],
-    "level_text": "Coq theorems for all strings: parse = independent grammar (iff), format/parse round-trip, agreement of the five Repository reference forms, rejection of foreign registries/repositories, URL last-segment and character-class slot; stated about a model whose regular expressions are re-translated from registry/reference.go on every run, tied to the code by an exhaustive small-scope + random differential run and an independent oracle",
-    "level_note": "registry authority validity (net/url) is a parameter of the theorems and judged only on a conservative subset in the correspondence; go-digest validation hand-modelled; Go regexp semantics = Base/Regex.v denotation",
+    "level_text": "Coq theorems for all strings, all registry predicates and all sets of linked hash implementations: parse = independent grammar (iff) with the component rules themselves characterised (tag rule, repository-name rule as an inductive grammar, digest rule: C20_tag_grammar, C20_repository_grammar, C20_digest_grammar); format/parse round-trip; agreement of the six Repository reference forms incl. the fully qualified tag@digest form; rejection of other registries/repositories at full strength (a string with a path in it is accepted only if it is base-registry/base-repository followed by ':' or '@': C20_repo_rejects_other_paths; the pre-fix code is refuted); URL slot at full strength under the generic URL syntax (scheme, authority = exactly the host without user-info, path segments exactly v2/<repository components>/<kind>/<reference>, no query, no fragment: C20_url_exact, C20_url_exact_noref, C20_op_requests_exact_paths) given the character-class fact reg_clean about accepted registries, which the oracle checks on every accepted reference (without it the statement is refuted: C20_url_exact_unconstrained_registry_refuted). Stated about a model whose regular expressions are re-translated from registry/reference.go on every run, tied to the code by an exhaustive small-scope (all strings to length 5/6 over 11 symbols; repository rule exhaustively to length 7/8 over its own alphabet) + random + mutation differential run in two link configurations and an independent oracle",
+    "level_note": "oracle only (no theorem): 'the registry is a URL authority' itself (net/url is a parameter; the theorems use only reg_clean); error identity (errors.Is ErrInvalidReference); the two query-carrying URL builders (referrers artifactType, blob mount) -- oracle url-query, not modelled. Operations are modelled for subject-less manifests in all three referrers-capability states and through both the store and the Repository wrappers. go-digest validation hand-modelled (version pinned at run time); Go regexp semantics = Base/Regex.v denotation",
     "technique": "machine-checked proof in Coq (regex derivative matcher proved correct; grammar equivalence; round-trip) + translator-regenerated definitions + model/implementation correspondence",
     "explanation": "theorems over all strings about the model of ParseReference/String/Repository.ParseReference/URL builders whose regexes are regenerated from registry/reference.go; exhaustive small-scope + random differential run of model vs implementation; independent grammar/round-trip/net-url oracle",
 }
